@@ -790,6 +790,31 @@ pub fn run_sweep(opts: &Opts) -> i32 {
                     }
                 }
             }
+            // C13 with the sweeper: whatever it has removed, memory_usage() is the sum over the records
+            // that are still indexed and len() their number (sampled when nothing is being written)
+            if verdict == "ok" {
+                let mut stable = false;
+                for _ in 0..40 {
+                    let snap = store.verif_snapshot();
+                    let expect: usize = snap.iter().map(|r| FeoxStore::verif_record_overhead() + r.key.len() + r.value_len).sum();
+                    let (got, n) = (store.memory_usage(), store.len());
+                    // the sweeper may remove a key between the snapshot and the two reads: look again
+                    let snap2 = store.verif_snapshot();
+                    if snap2.len() == snap.len() && got == expect && n == snap.len() {
+                        stable = true;
+                        break;
+                    }
+                    if snap2.len() == snap.len() && (got != expect || n != snap.len()) && !sweeper_on {
+                        break;
+                    }
+                    std::thread::sleep(Duration::from_millis(15));
+                }
+                if !stable {
+                    let snap = store.verif_snapshot();
+                    let expect: usize = snap.iter().map(|r| FeoxStore::verif_record_overhead() + r.key.len() + r.value_len).sum();
+                    verdict = format!("FAIL memory_usage-differs-from-the-indexed-records usage={} expected={expect} len={} records={}", store.memory_usage(), store.len(), snap.len());
+                }
+            }
             // restart: expired keys stay gone, the others keep their value and expiry
             if verdict == "ok" && persistent {
                 let _ = store.flush();
